@@ -1,6 +1,7 @@
 """Analysis bundle shared by all rules."""
 from __future__ import annotations
 
+import ast
 import os
 from typing import Dict, List, Optional
 
@@ -50,8 +51,57 @@ class Analysis:
             return cs[0]
         return Ctx(func, (kind, cls))
 
-    def cfg(self, func: FuncInfo) -> CFG:
-        return cfg_of(func)
+    def cfg(self, func: FuncInfo, inline=True) -> CFG:
+        """CFG of func; private helpers (methods / functions whose name starts with `_`, nested functions) called as a
+        statement are spliced in, so that extracting part of a function into a helper does not move the anchors."""
+        return cfg_of(func, self._inline_resolver if inline else None)
+
+    def _helper_target(self, call, owner_def) -> Optional[FuncInfo]:
+        owner = getattr(owner_def, '_info', None)
+        if owner is None:
+            return None
+        ctxs = self.typer.contexts_of(owner)
+        if not ctxs:
+            root = owner
+            while root.parent is not None:
+                root = root.parent
+            rc = self.typer.contexts_of(root)
+            ctxs = [Ctx(owner, rc[0].recv if rc else None)]
+        tgs = self.typer.call_targets(call, ctxs[0])
+        funcs = {id(t.func): t.func for t in tgs if t.kind == 'func'}
+        if len(funcs) != 1 or len(funcs) != len([t for t in tgs if t.kind in ('func',)]) or any(t.kind not in ('func',) for t in tgs):
+            return None
+        f = next(iter(funcs.values()))
+        if f is owner or isinstance(f.node, ast.Lambda):
+            return None
+        private = (f.name.startswith('_') and not f.name.startswith('__')) or f.parent is not None
+        if not private:
+            return None
+        return f
+
+    def _inline_resolver(self, call, owner_def):
+        f = self._helper_target(call, owner_def)
+        return f.node if f is not None else None
+
+    def nodes(self, func: FuncInfo, depth=0, _seen=None):
+        """[(ast node, owning FuncInfo)] of func's own body plus the bodies of the private helpers it calls as statements
+        (recursively, depth <= 3): where a rule used to look for a construct "in func", it looks here."""
+        if _seen is None:
+            _seen = set()
+        if func.qualname in _seen or depth > 3:
+            return []
+        _seen.add(func.qualname)
+        out = [(n, func) for n in self.typer.own_nodes(func)]
+        for n in list(self.typer.own_nodes(func)):
+            if isinstance(n, (ast.Expr, ast.Assign, ast.Return, ast.AugAssign, ast.AnnAssign)):
+                v = getattr(n, 'value', None)
+                if isinstance(v, ast.Await):
+                    v = v.value
+                if isinstance(v, ast.Call):
+                    h = self._helper_target(v, func.node)
+                    if h is not None:
+                        out.extend(self.nodes(h, depth + 1, _seen))
+        return out
 
     def units(self) -> dict:
         u = self.prog.stats()
